@@ -86,6 +86,23 @@ Definition similar_from (c : cache) (q : rule) : list rule :=
 Definition key_matches (q k : rule) : bool :=
   vmatch (r_to q) (r_to k) && vmatch (r_from q) (r_from k).
 
+(* chain.go:146-177: which of several similar cached keys is preferred *)
+Definition pick_key (q : rule) (pathKeys : list rule) (k0 : rule) : rule :=
+  let fromM := fun k => is_full (r_from q) && version_eqb (r_from k) (r_from q) in
+  let toM := fun k => is_full (r_to q) && version_eqb (r_to k) (r_to q) in
+  match filter (fun k => fromM k && toM k) pathKeys with
+  | k :: _ => k                                              (* cc == 2 *)
+  | [] =>
+    match filter toM pathKeys with
+    | k :: _ => k                                            (* toMatches[0] *)
+    | [] =>
+      match filter fromM pathKeys with
+      | k :: _ => k                                          (* fromMatches[0] *)
+      | [] => k0                                             (* fallback pathKeys[0] *)
+      end
+    end
+  end.
+
 (* chain.go:117 SearchPathForRule.  [] stands for nil. *)
 Definition search (c : cache) (q : rule) : list rule :=
   match cache_get c q with
@@ -95,21 +112,7 @@ Definition search (c : cache) (q : rule) : list rule :=
     match pathKeys with
     | [] => []
     | [k] => cache_path c k
-    | k0 :: _ =>
-      let fromM := fun k => is_full (r_from q) && version_eqb (r_from k) (r_from q) in
-      let toM := fun k => is_full (r_to q) && version_eqb (r_to k) (r_to q) in
-      match filter (fun k => fromM k && toM k) pathKeys with
-      | k :: _ => cache_path c k                             (* cc == 2 *)
-      | [] =>
-        match filter toM pathKeys with
-        | k :: _ => cache_path c k                           (* toMatches[0] *)
-        | [] =>
-          match filter fromM pathKeys with
-          | k :: _ => cache_path c k                         (* fromMatches[0] *)
-          | [] => cache_path c k0                            (* fallback pathKeys[0] *)
-          end
-        end
-      end
+    | k0 :: _ => cache_path c (pick_key q pathKeys k0)
     end
   end.
 
